@@ -12,5 +12,6 @@ let dispatch fnum z nat entry (is : int list) (xs : Obj.t list) : Obj.t list res
   | "theory", [sys] -> run_theory fnum (z sys) xs
   | "mindex_angles", [sys] -> run_mindex_angles fnum (z sys) xs
   | "mindex", [v; sys; n] -> run_mindex fnum (z v) (z sys) (nat n) xs
+  | "mindex_full", [v; sys; n] -> run_mindex_full fnum (z v) (z sys) (nat n) xs
   | "matq", [] -> run_matq fnum xs
   | _ -> Err OtherError
